@@ -55,6 +55,12 @@ def _validate(vtype, val, name):
         itype = vtype.__args__[0]
         if itype != func_xltypes.XlArray:
             val = flatten(val)
+        # Errors are values that propagate: the leftmost error among the
+        # items is the result. Only items that merely cannot be converted
+        # (e.g. text in a range that is summed) are skipped below.
+        for item in val:
+            if isinstance(item, xlerrors.ExcelError):
+                raise item
         return tuple(filter(
             lambda x: x is not None,
             [_safe_validate(itype, item, name) for item in val]
